@@ -150,6 +150,17 @@ PROPS = {
         "rule": CONC_RULE + "; C14: 1-8 Watchers with buffers {0,1,2,4,64,4096,65536,3} on one directory, one sequential history, Add/Remove/WatchList/Close churn on the others: event sequences must be identical; cap(Events) read directly; absorb test per size",
         "assumptions": ["kernel isolation between inotify instances (measured)"],
     },
+    "C20": {
+        "lean": ["FsnVerif.Props.C20"],
+        "lean_support": ["FsnVerif.Model.Diff", "FsnVerif.Proofs.DiffLemmas"],
+        "stages": [{"name": "diff", "cmd": "scratch:diff", "what": "C20"}],
+        "rule": "internal/ztest/diff.go copied verbatim into a scratch package with exported wrappers; matching blocks, opcodes, "
+                "grouped opcodes and the final Diff text compared with the Lean model exhaustively for all pairs of line "
+                "sequences over a three-letter alphabet up to length 4 (5 thorough), for random long sequences with many "
+                "repeats and for texts with empty lines / missing final newline / surrounding white space; an independent "
+                "monitor applies the implementation's textual diff to the first text and checks headers and context width",
+        "assumptions": ["strings.TrimSpace / regexp (DiffMatch) are standard library: DiffMatch's placeholder expansion is exercised, not modelled"],
+    },
     "C16": {
         "lean": ["FsnVerif.Props.C16"],
         "lean_support": ["FsnVerif.Proofs.BitsLemmas", "FsnVerif.Proofs.OpStringLemmas", "FsnVerif.Proofs.BridgeTables", "FsnVerif.Model.Bits"],
@@ -274,6 +285,23 @@ def compare(pid, stage, ops, impl, model):
         if len(out) >= 25:
             break
     return out, other
+
+
+def build_scratch(kind, sd, repo, verif, goenv, run):
+    """copy the template + the current source files of /repo into a scratch module and build it"""
+    import os, shutil
+    os.makedirs(sd, exist_ok=True)
+    if kind == "diff":
+        t = os.path.join(verif, "diffharness")
+        os.makedirs(os.path.join(sd, "ztest"), exist_ok=True)
+        shutil.copy(os.path.join(t, "go.mod"), os.path.join(sd, "go.mod"))
+        shutil.copy(os.path.join(t, "main.go.txt"), os.path.join(sd, "main.go"))
+        shutil.copy(os.path.join(t, "ztest", "export.go.txt"), os.path.join(sd, "ztest", "export.go"))
+        shutil.copy(os.path.join(repo, "internal", "ztest", "diff.go"), os.path.join(sd, "ztest", "diff.go"))
+    else:
+        return 2, "unknown scratch kind " + kind
+    rc, out, _ = run(["go", "build", "-o", os.path.join(sd, "scratchbin"), "."], cwd=sd, env=goenv)
+    return rc, out
 
 
 def tolerated(pid, op, impl, model):
